@@ -92,3 +92,61 @@ def stratified_sample(points, n, rng, key=lambda p: (p["file"], p["qual"])):
 
 
 KILL_ACTIONS = [["kill", "SIGKILL"], ["kill", "SIGSEGV"], ["kill", "SIGTERM"], ["exit", 3], ["cexit", 5], ["exit", 0]]
+
+
+DRIVER_FILES = ("process_executor.py", "reusable_executor.py", "backend/queues.py", "mp/queues.py", "backend/synchronize.py", "mp/util.py",
+                "backend/popen_loky_posix.py", "backend/process.py", "backend/fork_exec.py", "backend/spawn.py", "backend/reduction.py")
+WORKER_FILES = ("process_executor.py", "backend/queues.py", "mp/queues.py", "backend/popen_loky_posix.py", "mp/process.py",
+                "backend/synchronize.py", "backend/spawn.py", "backend/process.py", "mp/util.py")
+
+
+def base_delay(base, rng):
+    t = (base.get("meta", {}).get("kw") or {}).get("timeout")
+    if t is not None and t <= 0.3:
+        return round(min(1.0, max(0.05, 3 * t)), 3)
+    return rng.choice([0.05, 0.3])
+
+
+def derive_D(F, base, rng, n, quals=None, files=DRIVER_FILES, thr=None, which=("first", "second", "last", "random"), delay=None):
+    out = []
+    pts = points_of(F, role="driver", files=files, quals=quals, thr=thr)
+    for pt in stratified_sample(pts, n, rng):
+        hs = hits_for(pt, rng, which=(rng.choice(which),)) or [1]
+        d = delay if delay is not None else base_delay(base, rng)
+        out.append(({"rules": [rule(pt, ["sleep", d], hit=hs[0])]}, {"mode": "D", "fn": pt["qual"], "thr": pt["thr"]}))
+    return out
+
+
+def derive_K(F, base, rng, n, quals=None, files=WORKER_FILES, actions=KILL_ACTIONS, which=("first", "last"), n_workers=1, enumerate_all=False):
+    out = []
+    workers = sorted({p["proc"] for p in points_of(F, role="worker") if p["proc"]})
+    if not workers:
+        return out
+    for w in rng.sample(workers, min(n_workers, len(workers))):
+        pts = points_of(F, role="worker", proc=w, files=files, quals=quals)
+        chosen = pts if enumerate_all else stratified_sample(pts, n, rng)
+        for pt in chosen:
+            for h in (hits_for(pt, rng, which=which) if enumerate_all else (hits_for(pt, rng, which=(rng.choice(which),)) or [1])):
+                act = rng.choice(actions)
+                out.append(({"rules": [rule(pt, act, hit=h)]}, {"mode": "K", "fn": pt["qual"], "act": act[0] + str(act[1])}))
+    return out
+
+
+def derive_WD(F, base, rng, n, quals=None, delay=None):
+    """Delay inside a worker (e.g. between its time-out decision and its announcement)."""
+    out = []
+    workers = sorted({p["proc"] for p in points_of(F, role="worker") if p["proc"]})
+    if not workers:
+        return out
+    w = rng.choice(workers)
+    pts = points_of(F, role="worker", proc=w, files=WORKER_FILES, quals=quals)
+    for pt in stratified_sample(pts, n, rng):
+        hs = hits_for(pt, rng, which=(rng.choice(("first", "last", "random")),)) or [1]
+        d = delay if delay is not None else base_delay(base, rng)
+        anyp = rng.random() < 0.5
+        out.append(({"rules": [rule(pt, ["sleep", d], hit=hs[0], any_proc=anyp)]}, {"mode": "WD", "fn": pt["qual"]}))
+    return out
+
+
+def derive_Z(rng, n, p=0.03, dmax=0.02):
+    return [({"seed": rng.randint(0, 10**6), "rules": [{"role": "*", "action": ["jitter", p, dmax]}]}, {"mode": "Z"}) for _ in range(n)]
